@@ -8,9 +8,11 @@ import (
 	"iter"
 	"math"
 	"math/rand/v2"
+	"net/http"
 	"runtime"
 	"slices"
 	"sort"
+	"strconv"
 	"strings"
 	"sync"
 	"sync/atomic"
@@ -178,6 +180,8 @@ type respRec struct {
 	tick   int64
 	failed bool // the exchange did not deliver an answer (transport, status, rcode)
 	nx     bool // ... because the name does not exist
+	// the reply carried Age / Cache-Control headers
+	httpCache bool
 }
 
 func keyOf(name string, typ uint16) string {
@@ -201,7 +205,7 @@ func valuesOf(recs []simdoh.RR) []string {
 func responsesOf(log []simdoh.Entry) []respRec {
 	var out []respRec
 	for _, e := range log {
-		r := respRec{key: keyOf(e.QName, e.QType), done: e.Done, tick: e.TickDone}
+		r := respRec{key: keyOf(e.QName, e.QType), done: e.Done, tick: e.TickDone, httpCache: e.HTTPCache != ""}
 		if e.Outcome != "answer" || e.Reply == nil {
 			// NXDOMAIN and other rcodes, HTTP errors, transport errors
 			r.failed = true
@@ -434,6 +438,12 @@ func judgeHistory(res *core.Result, prop string, calls []callRec, resps []respRe
 					last = &resps[ri]
 				}
 			}
+			if last != nil && last.httpCache {
+				// the reply said how long it had sat in an HTTP cache: a resolver
+				// that takes that off the TTLs (RFC 8484, 5.1) may ask again earlier
+				res.Probe("must_hit_waived_http_age")
+				continue
+			}
 			if last == nil || last.failed || last.minTTL <= 0 || math.IsInf(last.minTTL, 1) || last.nAns == 0 {
 				continue // answers without records may be dropped early (documented: kept 300 s)
 			}
@@ -479,6 +489,9 @@ type SeqPlan struct {
 	Ops       []SeqOp   `json:"ops"`
 	LatencyUs int       `json:"latency_us"`
 	CacheSize int       `json:"cache_size"`
+	// HTTPCache > 0: the upstream (a DoH server behind an HTTP cache) adds Age /
+	// Cache-Control headers to its replies, drawn per request from the value.
+	HTTPCache uint64 `json:"http_cache,omitempty"`
 }
 
 var seqHosts = []string{"a.test", "b.test", "c.d.test", "e.test"}
@@ -553,6 +566,9 @@ func genC16(seed uint64, idx int) *Plan {
 	}
 	p.LatencyUs = core.Pick(r, []int{1, 500, 20000, 20000, 1500000, 4000000})
 	p.CacheSize = core.Pick(r, []int{-1, -1, -1, 128, 128, 8, 2, 0})
+	if idx%8 == 6 {
+		p.HTTPCache = 1 + r.Uint64()>>1
+	}
 	lat := time.Duration(p.LatencyUs) * time.Microsecond
 	var ttls []int64
 	for _, n := range p.Names {
@@ -620,6 +636,19 @@ func executeSeq(t *testing.T, prop string, pl *Plan) *core.Result {
 		srv.PadTo = 128
 		lat := time.Duration(p.LatencyUs) * time.Microsecond
 		srv.Latency = func(int) time.Duration { return lat }
+		if p.HTTPCache > 0 {
+			srv.Headers = func(seq int) http.Header {
+				h := http.Header{}
+				x := core.Mix(p.HTTPCache, "hdr", seq)
+				if x%3 != 0 {
+					h.Set("Age", strconv.Itoa(core.Pick(core.NewRand(x, "age"), []int{0, 1, 2, 3, 5, 10, 59, 60, 61, 299, 300, 301, 4000, 90000})))
+				}
+				if x%3 != 1 {
+					h.Set("Cache-Control", "max-age="+strconv.Itoa(core.Pick(core.NewRand(x, "max-age"), []int{0, 1, 5, 60, 300, 3600, 86400})))
+				}
+				return h
+			}
+		}
 		dns.VerifRoundTripper = srv
 		defer func() { dns.VerifRoundTripper = nil }()
 		rs, err := newResolver(p.CacheSize)
